@@ -12,12 +12,17 @@ import (
 	"encoding/json"
 	"fmt"
 	"net"
+	"os"
+	"path/filepath"
 	"strconv"
 	"strings"
+	"time"
 
+	"github.com/glowlabs-org/gca-backend/client"
 	"github.com/glowlabs-org/gca-backend/glow"
 
 	"verifh/pool"
+	"verifh/shim/vtime"
 )
 
 type c08Job struct {
@@ -29,11 +34,115 @@ type c08Job struct {
 	Slots    []int    `json:"slots"`     // explicit timeslots per reading (wide family); empty = consecutive from Base
 	FixedNow int      `json:"fixed_now"` // server clock stays here (wide family); 0 = the clock follows the readings
 	Revised  []string `json:"revised"`   // per slot: what the meter's row says when the file is read again after the originals were sent ("" = unchanged)
+	// Loop: the readings are in the file when the device starts (stored, not sent); the device is restarted
+	// (Revised applied to the file in between), and the sync round is the one the device's own report loop
+	// launches, with the loop's own notion of the latest reading - not a round driven by the harness.
+	Loop bool `json:"loop"`
 }
 
 const c08Base = 2099 // timeslot of the first reading: bits 3,4,5 of one bitfield byte, so that a mirrored or shifted bit mapping makes a delivered slot shadow a lost one
 
+func c08LoopRun(j c08Job) *jobReport {
+	rep := &jobReport{Reasons: map[string]int{}}
+	cfgDesc := fmt.Sprintf("%+v", j)
+	genesis := int64(glow.GenesisTime)
+	file := func(revised bool) string {
+		c := "timestamp,energy (mWh)\n"
+		for i, r := range j.Readings {
+			if revised && i < len(j.Revised) && j.Revised[i] != "" {
+				r = j.Revised[i]
+			}
+			c += fmt.Sprintf("%d,%s\n", genesis+int64(c08Base+4*i)*300+7, r)
+		}
+		return c
+	}
+	content := file(false)
+	newest := c08Base + 4*(len(j.Readings)-1)
+	p, err := newPairWorld("c08loop", 3000000000, []string{fmt.Sprintf("now:%d", newest)}, &content, 2000)
+	if err != nil {
+		rep.fail("harness/setup", err.Error())
+		return rep
+	}
+	poisoned := false
+	defer func() {
+		r := &bfsResult{}
+		p.finish(r, poisoned)
+		for _, v := range r.Violations {
+			rep.fail(v.Sig, v.Detail)
+		}
+	}()
+	if len(p.Hub.Log) != 0 {
+		rep.Reasons["start-up sends"]++
+	}
+	// restart with the revised file
+	if err := p.Cli.Close(); err != nil {
+		rep.fail("harness/close", err.Error())
+		poisoned = true
+		return rep
+	}
+	p.Cli.setEnergy(file(true))
+	// the last successful sync on record is seven hours old, so the loop tries one at its first opportunity
+	must(os.WriteFile(filepath.Join(p.Cli.Dir, client.LastSyncFile), []byte(fmt.Sprint(int64(nowUnix())-7*3600)), 0644))
+	vtime.Advance(3 * time.Second)
+	if err := p.Cli.start(); err != nil {
+		rep.fail("client-restart-fails", map[string]interface{}{"config": cfgDesc, "err": err.Error()})
+		poisoned = true
+		return rep
+	}
+	stampBefore, _ := os.ReadFile(filepath.Join(p.Cli.Dir, client.LastSyncFile))
+	// one tick: the loop launches its own sync round (no successful sync is on record)
+	known := map[int64]bool{}
+	for _, pi := range vtime.Pending() {
+		known[pi.Goid] = true
+	}
+	if err := p.Cli.tick(); err != nil {
+		rep.fail("harness/tick", err.Error())
+		poisoned = true
+		return rep
+	}
+	deadline := time.Now().Add(20 * time.Second)
+	done := false
+	for time.Now().Before(deadline) {
+		if b, err := os.ReadFile(filepath.Join(p.Cli.Dir, client.LastSyncFile)); err == nil && string(b) != string(stampBefore) {
+			done = true
+			break
+		}
+		// only the between-attempts sleep of a round born after the tick is ended early (never the 120 s test-mode watchdogs)
+		vtime.FireMatch(func(pi vtime.PendingInfo) bool { return !known[pi.Goid] && pi.D == cc.SendReportTime }, false, time.Second)
+		time.Sleep(200 * time.Microsecond)
+	}
+	rep.Evals++
+	if !done {
+		rep.Inconclusive = append(rep.Inconclusive, "the loop's own sync round did not record a success within 20 s (inconclusive): "+cfgDesc)
+		poisoned = true
+		return rep
+	}
+	time.Sleep(5 * time.Millisecond) // the round writes its stamp after the last retransmission
+	snap := p.Srv.S.VerifSnapshot()
+	held := map[uint32]uint64{}
+	for _, sl := range snap.Reports[p.ID] {
+		held[snap.ReportsOffset+sl.Index] = sl.Report.PowerOutput
+	}
+	for i, r := range j.Readings {
+		ts := uint32(c08Base + 4*i)
+		want := c08Value(r) // what the device stored first is what it reports
+		got, ok := held[ts]
+		switch {
+		case !ok:
+			rep.fail("not-recovered-by-the-loops-own-sync/after-restart", map[string]interface{}{"config": cfgDesc, "slot": ts, "newest_slot": newest})
+		case got != want:
+			rep.fail("wrong-value-after-restart", map[string]interface{}{"config": cfgDesc, "slot": ts, "server": got, "first_reading": want})
+		}
+	}
+	rep.Reasons[fmt.Sprintf("loop sync after restart, %d readings", len(j.Readings))]++
+	rep.Accepted++
+	return rep
+}
+
 func c08Run(j c08Job) *jobReport {
+	if j.Loop {
+		return c08LoopRun(j)
+	}
 	rep := &jobReport{Reasons: map[string]int{}}
 	c08Base := c08Base
 	if j.Base != 0 {
@@ -381,6 +490,15 @@ func init() {
 				}
 			}
 		}
+		// the device's own loop: readings present at start-up, a restart (with the newest / an older row revised or
+		// not), then the sync round the report loop itself launches
+		for _, rv := range [][]string{nil, {"", "3100"}, {"600", ""}, {"", "abc"}, {"", "", "3100"}} {
+			rs := []string{"500", "3000"}
+			if len(rv) == 3 {
+				rs = []string{"500", "-3000", "3000"}
+			}
+			jobs = append(jobs, c08Job{Readings: rs, Revised: rv, Loop: true})
+		}
 		// wide family: the server clock stays at 1000 while the device has readings over the whole acceptance
 		// range, the newest one AHEAD of the server clock; every subset of the older originals is lost
 		for _, newest := range []int{1432, 1100, 1000} {
@@ -399,7 +517,7 @@ func init() {
 			}
 		}
 		run.Assumption("loss, duplication and reordering are decided per datagram by the scripted network; readings fit 32 signed bits (the property's own restriction)")
-		rc := runJobCheck(run, "c08", jobs, "every combination of per-slot reading {none, +5000, -3000, sentinel 2 (, sentinel 3, 70000)} x fate of the original datagram {delivered, dropped, duplicated} x earlier sync round {none, dial fails, malformed reply, ok with all retransmissions dropped, ok delivered} x {nothing, week rotation, server restart} before a final fault-free round on a real client and a real server; afterwards every datagram ever on the wire is re-delivered in reverse order; plus a boundary family (readings -2^31, -2^31+1, 2^31-1, 2^31-2, +-24, -25, 65535, +-65536 lost and retransmitted), plus revised rows (the file says something else for a slot after its original was sent: unparseable->number, number->other number, sentinel->number, number->unparseable), plus a wide family (server clock fixed, readings at now-432, now-431, now-400, now-300, now-1 and a newest reading at now / now+100 / now+432, every subset of the older originals lost), plus dense runs of 18 consecutive slots from a bitfield byte boundary with none / each single / each adjacent pair of originals lost; distinct = (fate, early round, in-between event) classes; executions = evaluations")
+		rc := runJobCheck(run, "c08", jobs, "every combination of per-slot reading {none, +5000, -3000, sentinel 2 (, sentinel 3, 70000)} x fate of the original datagram {delivered, dropped, duplicated} x earlier sync round {none, dial fails, malformed reply, ok with all retransmissions dropped, ok delivered} x {nothing, week rotation, server restart} before a final fault-free round on a real client and a real server; afterwards every datagram ever on the wire is re-delivered in reverse order; plus a boundary family (readings -2^31, -2^31+1, 2^31-1, 2^31-2, +-24, -25, 65535, +-65536 lost and retransmitted), plus the report loop's own sync round after a device restart (readings stored at start-up, rows revised or not in between), plus revised rows (the file says something else for a slot after its original was sent: unparseable->number, number->other number, sentinel->number, number->unparseable), plus a wide family (server clock fixed, readings at now-432, now-431, now-400, now-300, now-1 and a newest reading at now / now+100 / now+432, every subset of the older originals lost), plus dense runs of 18 consecutive slots from a bitfield byte boundary with none / each single / each adjacent pair of originals lost; distinct = (fate, early round, in-between event) classes; executions = evaluations")
 		return rc
 	}
 }
